@@ -600,3 +600,39 @@ lp:
   %l = landingpad i32 cleanup
   ret i32 0
 }
+;;; ATOM inst/blockaddress-number-like-block-names
+@t = global [6 x i8*] [i8* blockaddress(@f, %"7"), i8* blockaddress(@f, %"007"), i8* blockaddress(@f, %"+7"), i8* blockaddress(@f, %"-0"), i8* blockaddress(@f, %"042"), i8* blockaddress(@f, %"42")]
+define void @f(i8* %p) {
+entry:
+  indirectbr i8* %p, [label %"007", label %"7", label %"+7", label %"-0", label %"042", label %"42"]
+"007":
+  br label %"7"
+"7":
+  br label %"+7"
+"+7":
+  br label %"-0"
+"-0":
+  br label %"042"
+"042":
+  br label %"42"
+"42":
+  ret void
+}
+uselistorder_bb @f, %"7", { 2, 0, 1 }
+;;; ATOM term/indirectbr-identical-lists
+define void @f(i8* %p, i8* %q) {
+entry:
+  indirectbr i8* %p, [label %a, label %b]
+a:
+  indirectbr i8* %q, [label %a, label %b]
+b:
+  ret void
+}
+define void @g(i8* %p) {
+entry:
+  indirectbr i8* %p, [label %a, label %b]
+a:
+  br label %b
+b:
+  ret void
+}
